@@ -766,6 +766,18 @@ theorem C37_mirror :
     (Gen.Pkce.widthVersion, Gen.Pkce.widthCreated, Gen.Pkce.widthLen, Gen.Pkce.hmacLen) = (1, 8, 2, 32) := by
   decide
 
+/-- **configuration**: the middleware validates against the allow-list the operator configured — an explicit list,
+the empty one included, is used as given; the built-in default only stands in for an absent one -/
+theorem C37_allow_config (configured : Option (List Str)) :
+    effectiveAllow configured = AllowInForce Gen.Pkce.defaultAllowedReturnOrigins configured := by
+  have h : Gen.Pkce.allowDefaulting = .isNotNone := by rfl
+  unfold effectiveAllow AllowInForce
+  rw [h]
+  cases configured <;> rfl
+
+/-- in particular an explicitly empty allow-list admits nothing but loopback -/
+theorem C37_allow_empty : effectiveAllow (some []) = [] := C37_allow_config (some [])
+
 /-- **agreement lemma**: on a URL free of C0 controls, space and backslash, with a special scheme and a netloc without
 userinfo and brackets, the browser runs its host parser on exactly the text Python takes as host (before lower-casing)
 and its port state on exactly Python's port text. -/
